@@ -35,6 +35,7 @@ def check(ctx):
     ctx.attempt(_lock_tract)
     ctx.attempt(_forwarding)
     ctx.attempt(_deadparam)
+    ctx.attempt(_tract_creation)
     ctx.attempt(forward.check_all, module_suffixes=('config.config', 'plssdesc.plssdesc', 'plssdesc.plss_parse', 'tract.tract', 'tract.tract_parse', 'containers.containers'))
 
 
@@ -416,18 +417,55 @@ def _forwarding(ctx):
         calls = [c for c in walk_local(fi.node) if isinstance(c, ast.Call) and dotted(c.func) == callee]
         if len(calls) != 1:
             raise AnalysisError(f"{spec}: expected one {callee}(...) call")
-        kw = {k.arg: norm(k.value) for k in calls[0].keywords}
+        kw = {k.arg: k.value for k in calls[0].keywords}
         for p in fi.params():
             if p in ('self', 'config') and callee == 't.parse':
                 continue
             if p == 'self':
                 continue
-            ctx.check(kw.get(p) == p, 'LOCK', f"{spec} forwards {p}={p}",
-                      detail_bad=f"{p} is forwarded as {kw.get(p)!r}", key=f"LOCK|{spec}|{p}")
+            if p not in kw:
+                ctx.violation('LOCK', f"{spec} forwards {p} as given", f"`{p}` is not handed to {callee}()",
+                              key=f"LOCK|{spec}|{p}", where=common.loc(fi, calls[0]))
+                continue
+            prov = flow.provenance(fi.node, kw[p])
+            attrs = sorted(a for a in flow.prov_attrs(prov) if a.startswith('self.'))
+            given = p in flow.prov_params(prov)
+            ctx.tri(given and not attrs and norm(kw[p]) == p, bool(attrs) or not given, 'LOCK',
+                    f"{spec} forwards {p} as given",
+                    detail_bad=(f"the `{p}` handed to {callee}() falls back to {attrs}: a plain {spec.split('.')[-1]}() "
+                                f"re-applies the parent's setting to every tract and overrides what the tracts were "
+                                f"configured with" if attrs else f"{p} is forwarded as `{norm(kw[p])}`"),
+                    key=f"LOCK|{spec}|{p}", where=common.loc(fi, calls[0]))
     fi = ctx.repo.func('TractList.parse_tracts')
     t = ' '.join(norm(s) for s in walk_local(fi.node) if isinstance(s, ast.stmt))
     ctx.shape('if config:' in t and 'self.config_tracts(config)' in t and 'for t in self:' in t, 'LOCK',
               'parse_tracts applies a given config to every tract, then parses every tract')
+
+
+def _tract_creation(ctx):
+    """PLSSParser.construct_tracts hands the keyword-level parse_qq to every
+    Tract: the config string it also hands down can only switch parsing on,
+    so without the keyword a parse_qq=False given to parse() loses against a
+    'parse_qq' in the config string."""
+    fi = ctx.repo.func('PLSSParser.construct_tracts')
+    calls = [c for c in walk_local(fi.node) if isinstance(c, ast.Call) and dotted(c.func) == 'Tract']
+    construct = 'construct_tracts: Tract(...) receives parse_qq from the parser keyword'
+    if len(calls) != 1:
+        ctx.undecided('LOCK', construct, 'Tract(...) call not recognised')
+        return
+    kw = {k.arg: k.value for k in calls[0].keywords if k.arg}
+    if any(k.arg is None for k in calls[0].keywords):
+        ctx.undecided('LOCK', construct, '**kwargs in the Tract(...) call')
+        return
+    if 'parse_qq' not in kw:
+        ctx.violation('LOCK', construct,
+                      "Tract(...) is created without `parse_qq=`: the tract decides from the handed-down config string "
+                      "alone, so the config string beats a parse_qq keyword given to PLSSDesc.parse()",
+                      key="LOCK|construct_tracts|parse_qq", where=common.loc(fi, calls[0]))
+        return
+    attrs = flow.prov_attrs(flow.provenance(fi.node, kw['parse_qq']))
+    ctx.check('self.parse_qq' in attrs, 'LOCK', construct, detail_bad=f"parse_qq={norm(kw['parse_qq'])}",
+              key="LOCK|construct_tracts|parse_qq", where=common.loc(fi, calls[0]))
 
 
 def _deadparam(ctx):
